@@ -62,7 +62,7 @@ K_CALLS = 100         # real profile events allowed per model step
 K0_CALLS = 2000
 CAP_CALLS = 30_000_000
 EVAL_CAP = 150_000
-BATCH_ALARM = 600     # seconds per worker batch: only so that the check itself can never hang
+BATCH_ALARM = 1800    # seconds per worker batch: only so that the check itself can never hang
 
 EXPECTED_LOOPS = {
     "parser.py": {"read_shifted_comment": 1, "read_sys_comment": 1, "skip_space": 1, "read_num": 1,
@@ -468,7 +468,9 @@ def run_case0(text, premod, want_eval, mrep=None):
             else:
                 model = ("err", -1, mf["kind"], mf["pos"], "")
             if model != real or mf["mod"] != modstr(mod1):
-                out["mism"] = ("parse", f"{model} mod={mf['mod']}", f"{real} mod={modstr(mod1)}")
+                names = ("class", "end-index", "error-kind", "error-pos", "ast", "module")
+                diff = [n for n, x, y in zip(names, model + (mf["mod"],), real + (modstr(mod1),)) if x != y]
+                out["mism"] = ("parse:" + ",".join(diff), f"{model} mod={mf['mod']}", f"{real} mod={modstr(mod1)}")
     else:
         out["inmodel"] = False
     out["st"] = st
@@ -680,7 +682,7 @@ def _cases(ctx):
             for item in c.get("cases", []):
                 if fresh(item["text"], item.get("premod")):
                     yield ("corpus", item["text"], item.get("premod"), False)
-    for s in long_strings((25, 80) if quick else (25, 80, 200)):
+    for s in long_strings((25, 80) if quick else (25, 80, 120)):
         if fresh(s, None):
             yield ("long", s, None, False)
     for s in exhaustive(2 if quick else 3):
@@ -743,6 +745,9 @@ def _report(ctx, group, a):
         ctx.oracle_fail("parse:" + key, case, "property holds", detail[:600], what)
     if a["mism"]:
         where, model, impl = a["mism"]
+        ctx.bump("mismatch:" + where)
+        if ctx.hist["mismatch:" + where] <= 4:
+            common.log(f"C12 mismatch on {a['text']!r} (module {a['premod']}): model {model} / real {impl}"[:1200])
         ctx.mismatch("Klong.C12.parse vs KlongInterpreter.prog (" + where + ")", case, model, impl)
 
 
